@@ -165,7 +165,9 @@ class Sched:
                     if k in seen_sym:
                         continue
                     seen_sym.add(k)
-                opts.append(("run", t, pre))
+                # at a blocking point / thread exit the first enabled thread is the free default; picking
+                # another one costs a "yield" (budgets without that key leave it unlimited, as before)
+                opts.append(("run", t, pre if (me_en or not opts) else {"yield": 1}))
         for t in self.threads:
             if t.finished or not t.timeout_ok or t.pred is None or t.pred():
                 continue
